@@ -30,6 +30,7 @@ from .. import rig as R, ref, gen, dump, hist, env
 from ..orch import h
 
 ID = "C16"
+TECHNIQUE = 'runtime monitoring - validator contracts (reference predicate per validator at its documented bounds), pipelines through the relay with call taps (every configured validator evaluated; fail-closed), dynamic list content vs store, refresh race driven by sys.monitoring yield injection'
 LEVEL = "exploration"
 RULE = (
     "cases: (a) per validator the boundary grid - content length cap-1/cap/cap+1, age oldest_event-1/=/+1 and future skew "
